@@ -211,8 +211,8 @@ theorem bindAlloc_ipsN (s : State) (pod : Pod) (node : String) (policy : Nat) (i
       have ctot : Chg isFree (hasKNU (keyOf pod) node pod.uid) s
           (allocateInSubnetsAndRanges (queryNodeSubnet s node).1 (keyOf pod) n (unfoundRanges infos pod.ranges)
             { policy := policy, node := node, uid := pod.uid } pick).1 := (qq.1.chg).trans c
-      refine ⟨ctot, fun _ ip hip => ?_⟩
-      have hk2 := byKeyAndRanges_mem _ hc.allocNodup (keyOf pod) pod.ranges ip hip
+      refine ⟨ctot, fun hok ip hip => ?_⟩
+      have hk2 := byKeyAndRanges_mem _ (hc (Or.inr hok)).allocNodup (keyOf pod) pod.ranges ip hip
       rcases ctot.recs ip with e | ⟨_, hnew⟩
       · left
         rw [e] at hk2
@@ -305,6 +305,7 @@ theorem bindCommit_eff (s : State) (pod : Pod) (ns name : String) (uid : Nat) (n
       rw [h7]
 
 theorem bind_post (s : State) (ns name : String) (uid : Nat) (node : String) (ch : Choice) (h : Core s)
+    (hcm : s.crashMode = false)
     (hf : s.fault = 0 ∨ bindNoReuse s ns name ch = true) (hsame : bindSameNode s ns name node = true)
     (hl : ∀ pod, Tbl.get s.vPods (ns, name) = some pod → (keyOf pod).pod ≠ "" ∧ pod.uid ≠ 0) :
     BindPost s ns name node (Plugin.bind Facts.good s ns name uid node ch).1 := by
@@ -367,7 +368,7 @@ theorem bind_post (s : State) (ns name : String) (uid : Nat) (node : String) (ch
             have bn := bindAlloc_ipsN s pod node (policyOf pod) infos ch.pick h.coh hshape
             generalize hb : bindAlloc s pod node { policy := policyOf pod, node := node, uid := pod.uid } infos ch.pick = ba at *
             have cb : Core ba.1 := by
-              refine ⟨spec.coherent, by rw [bn.1.frame.provOn]; exact h.on,
+              refine ⟨spec.coherent (Or.inl hcm), by rw [bn.1.frame.provOn]; exact h.on,
                 J_of_chg h.j bn.1 spec.plog (fun ip ho => (h.j ip).unassigned_of_free ho) (fun o hn r hr hz => ?_),
                 by rw [spec.plog]; exact h.log⟩
               obtain ⟨r', h1, h2, _, h4⟩ := hn
@@ -413,20 +414,24 @@ theorem bind_post (s : State) (ns name : String) (uid : Nat) (node : String) (ch
                   (infos.filterMap id) (ba.2.2.filterMap id) = bl at *
               split
               · rename_i hlres
-                have ce := bindCommit_eff bl.1 pod ns name uid node (ba.2.2.filterMap id)
-                obtain ⟨e1, e2, e3, e4, e5, e6, e7⟩ := ce
-                have cc : Core (bindCommit bl.1 pod ns name uid node (ba.2.2.filterMap id)).1 := lp.1.of_eq e4 e1 e2 e3 e5 e6
-                have hprov : prov (bindCommit bl.1 pod ns name uid node (ba.2.2.filterMap id)).1 = prov bl.1 := by
-                  unfold prov; rw [e6]
-                refine ⟨cc, ?_⟩
-                rcases e7 with e7 | ⟨tp, htp, e7⟩
-                · exact Or.inl (e7.trans lpods)
-                · right
-                  refine ⟨tp, (ba.2.2.filterMap id).map (toHInfo bl.1), by rw [← lpods]; exact htp, by rw [e7, lpods], ?_⟩
-                  intro hd hhd
-                  obtain ⟨ip, hip, rfl⟩ := List.mem_map.mp hhd
-                  rw [toHInfo_ip, hprov]
-                  exact lp.2.1 hlres ip hip
+                rcases bindCommitX_cases bl.1 pod ns name uid node (ba.2.2.filterMap id) with ex | ex
+                · rw [ex]
+                  exact ⟨lp.1.of_eq rfl rfl rfl rfl rfl rfl, Or.inl lpods⟩
+                · rw [ex]
+                  have ce := bindCommit_eff bl.1 pod ns name uid node (ba.2.2.filterMap id)
+                  obtain ⟨e1, e2, e3, e4, e5, e6, e7⟩ := ce
+                  have cc : Core (bindCommit bl.1 pod ns name uid node (ba.2.2.filterMap id)).1 := lp.1.of_eq e4 e1 e2 e3 e5 e6
+                  have hprov : prov (bindCommit bl.1 pod ns name uid node (ba.2.2.filterMap id)).1 = prov bl.1 := by
+                    unfold prov; rw [e6]
+                  refine ⟨cc, ?_⟩
+                  rcases e7 with e7 | ⟨tp, htp, e7⟩
+                  · exact Or.inl (e7.trans lpods)
+                  · right
+                    refine ⟨tp, (ba.2.2.filterMap id).map (toHInfo bl.1), by rw [← lpods]; exact htp, by rw [e7, lpods], ?_⟩
+                    intro hd hhd
+                    obtain ⟨ip, hip, rfl⟩ := List.mem_map.mp hhd
+                    rw [toHInfo_ip, hprov]
+                    exact lp.2.1 hlres ip hip
               · exact ⟨lp.1, Or.inl lpods⟩
 
 end Galaxy.PluginC10
